@@ -1,11 +1,563 @@
 /-
 C17 — Memory safety and clean failure on arbitrary server responses (theorems about `Dl.lean`).
+The model marks as `ub` every step whose C counterpart would be undefined behaviour that the model can express: use of an
+allocated-but-uncompiled pattern (`regexec`/`regfree` on it), match offsets outside the subject string, a chunk pointer
+outside the index, and running out of the fuel that stands for the C loops' termination.  `safe` below says that no
+callback ever reaches such a step, for arbitrary header lines, bodies and fragmentations.  Confinement and verification
+for arbitrary input are `C05.confined` and `C05.verified` (re-exported at the end).
 -/
 import ZckModel.Props.C05
 
 namespace Zck.C17
-open Zck Zck.Format Zck.Dl
+open Zck Zck.Format Zck.Dl Zck.Copy Zck.C05
 
-theorem placeholder_true : True := trivial
+/-- what `regexec` promises: group offsets lie inside the subject string, in order -/
+structure RxSane (rx : Rx) : Prop where
+  hdr  : ∀ s so eo, rx.hdr s = some (so, eo) → so ≤ eo ∧ eo ≤ s.length
+  part : ∀ pp s a b c d, rx.part pp s = some (a, b, c, d) → a ≤ b ∧ b ≤ s.length ∧ c ≤ d ∧ d ≤ s.length
+
+/-- the three patterns are NULL or compiled, never allocated-but-uncompiled; the part pattern never without the closing one -/
+structure RxOk (st : St) : Prop where
+  noUb : st.ub = false
+  hdr  : st.hdrRx ≠ .broken
+  pair : st.dlRx = .null ∨ ((∃ p, st.dlRx = .ok p) ∧ (∃ q, st.endRx = .ok q))
+
+theorem RxOk.congr {st st' : St} (h : RxOk st) (h1 : st'.ub = st.ub) (h2 : st'.hdrRx = st.hdrRx)
+    (h3 : st'.dlRx = st.dlRx) (h4 : st'.endRx = st.endRx) : RxOk st' :=
+  ⟨by rw [h1]; exact h.noUb, by rw [h2]; exact h.hdr, by rw [h3, h4]; exact h.pair⟩
+
+/-- the regex fields and the ub flag, which most of the write path does not touch -/
+def rxs (st : St) : Bool × RxSt × RxSt × RxSt := (st.ub, st.hdrRx, st.dlRx, st.endRx)
+
+theorem RxOk.of_rxs {st st' : St} (h : RxOk st) (hr : rxs st' = rxs st) : RxOk st' := by
+  simp only [rxs, Prod.mk.injEq] at hr
+  exact h.congr hr.1 hr.2.1 hr.2.2.1 hr.2.2.2
+
+theorem rxs_dlWrite (st : St) (at_ : Bytes) : rxs (dlWrite st at_).2 = rxs st := by
+  unfold dlWrite
+  simp only
+  repeat' split
+  all_goals rfl
+
+theorem dlWrite_some (st : St) (at_ : Bytes) (wb : Nat) (st1 : St) (h : dlWrite st at_ = (some wb, st1)) :
+    (st.writeInChunk = 0 → wb = 0 ∧ st1.writeInChunk = 0) ∧
+    (st.writeInChunk > 0 → 0 < wb ∧ wb ≤ at_.length ∧ wb ≤ st.writeInChunk ∧ st1.writeInChunk = st.writeInChunk - wb) := by
+  unfold dlWrite at h
+  by_cases h0 : st.writeInChunk > 0
+  · simp only [h0, ↓reduceIte] at h
+    generalize hwb : (if st.writeInChunk < at_.length then st.writeInChunk else at_.length) = w at h
+    have hw1 : w ≤ st.writeInChunk := by rw [← hwb]; split <;> omega
+    have hw2 : w ≤ at_.length := by rw [← hwb]; split <;> omega
+    by_cases hz : w = 0
+    · simp [hz] at h
+    · simp only [hz, ↓reduceIte] at h
+      cases hh : st.hash with
+      | none => simp [hh] at h
+      | some acc =>
+        simp only [hh, Prod.mk.injEq, Option.some.injEq] at h
+        refine ⟨fun h' => by omega, fun _ => ?_⟩
+        rw [← h.1, ← h.2]
+        exact ⟨by omega, hw2, hw1, rfl⟩
+  · simp only [h0, ↓reduceIte, Prod.mk.injEq, Option.some.injEq] at h
+    refine ⟨fun h' => ⟨h.1.symm, by rw [← h.2]; exact h'⟩, fun h' => absurd h' h0⟩
+
+theorem rxs_setChunkValid (e : Env) (st : St) (k : Nat) (h : ∃ tc, e.hdr.chunks[k]? = some tc) :
+    rxs (setChunkValid e st k).2 = rxs st := by
+  obtain ⟨tc, htc⟩ := h
+  unfold setChunkValid
+  rw [htc]
+  simp only
+  cases hh : st.hash with
+  | none => rfl
+  | some acc =>
+    simp only
+    generalize (if tc.compLen = 0 then (hsize e.hdr.chunkHashType).map zeros else e.H e.hdr.chunkHashType acc) = dg
+    by_cases hd : (dg == some tc.digest) = true
+    · simp only [hd, ↓reduceIte]; rfl
+    · simp only [hd, Bool.false_eq_true, ↓reduceIte]; rfl
+
+theorem rxs_dlVerify (e : Env) (f0 : Bytes) (v0 : List Int) (st : St) (hg : Good e f0 v0 st) :
+    rxs (dlVerify e st).2 = rxs st := by
+  unfold dlVerify
+  split
+  · rename_i k hk; exact rxs_setChunkValid e st k (hg.chk k hk).2
+  · rfl
+
+theorem rxs_dlOpen (e : Env) (st : St) : rxs (dlOpen e st) = rxs st := by
+  unfold dlOpen
+  simp only
+  split
+  · split <;> rfl
+  · rfl
+
+theorem rxs_dlSelect (e : Env) (f0 : Bytes) (v0 : List Int) (st : St) (hg : Good e f0 v0 st) :
+    rxs (dlSelect e st).2 = rxs st := by
+  unfold dlSelect
+  simp only
+  split
+  · exact rxs_dlVerify e f0 v0 st hg
+  · rw [rxs_dlOpen]; exact rxs_dlVerify e f0 v0 st hg
+
+/-- `dl_write_range` with enough fuel for its argument never runs out of fuel, uses no pattern, reads no chunk that is
+not in the index: the regex fields and the ub flag are unchanged -/
+theorem rxs_dlWriteRange (e : Env) (f0 : Bytes) (v0 : List Int) : ∀ (fuel : Nat) (st : St) (at_ : Bytes),
+    Good e f0 v0 st → 2 * at_.length + (if st.writeInChunk = 0 then 1 else 0) + 1 ≤ fuel →
+    rxs (dlWriteRange e fuel st at_).2 = rxs st
+  | 0, st, at_, _, hf => by omega
+  | fuel + 1, st, at_, hg, hf => by
+    unfold dlWriteRange
+    split
+    · rfl
+    · split
+      · rfl
+      · have hw := good_dlWrite e f0 v0 st at_ hg
+        have hx := rxs_dlWrite st at_
+        split
+        · rename_i st1 heq; rw [heq] at hx; exact hx
+        · rename_i wb st1 heq
+          rw [heq] at hw hx
+          simp only at hw hx
+          -- how many bytes dl_write took, and what is left of the chunk
+          have hwb := dlWrite_some st at_ wb st1 heq
+          have hr : Good e f0 v0 (if st1.writeInChunk = 0 then dlSelect e st1 else (true, st1)).2 ∧
+              rxs (if st1.writeInChunk = 0 then dlSelect e st1 else (true, st1)).2 = rxs st1 := by
+            split
+            · rename_i h0; exact ⟨pres_dlSelect e (good_preserved e f0 v0) st1 hw h0, rxs_dlSelect e f0 v0 st1 hw⟩
+            · exact ⟨hw, rfl⟩
+          generalize (if st1.writeInChunk = 0 then dlSelect e st1 else (true, st1)) = r at hr ⊢
+          simp only
+          split
+          · rw [hr.2, hx]
+          · split
+            · rename_i hrec
+              have hlen : (at_.drop wb).length = at_.length - wb := by simp
+              have := rxs_dlWriteRange e f0 v0 fuel r.2 (at_.drop wb) hr.1 (by
+                rw [hlen]
+                by_cases h0 : st.writeInChunk = 0
+                · have := hwb.1 h0
+                  simp only [h0, ↓reduceIte] at hf
+                  have hne : r.2.writeInChunk ≠ 0 := by omega
+                  simp only [hne, ↓reduceIte]
+                  omega
+                · have := hwb.2 (by omega)
+                  simp only [h0, ↓reduceIte] at hf
+                  split <;> omega)
+              split
+              · rw [this, hr.2, hx]
+              · rw [this, hr.2, hx]
+            · rw [hr.2, hx]
+
+/-- where the scan for CRLFCRLF stops: not found ⇒ within four bytes of the end; found at `j` ⇒ `i ≤ j` and at least one
+byte follows the terminator (`j + 4 < length`), so `j[3] = 0` and everything before it is inside the buffer -/
+theorem scanFrom_spec : ∀ (bs : Bytes) (j : Nat),
+    (∀ r, scanFrom bs j = .inl r → j ≤ r ∧ r + 4 ≥ j + bs.length) ∧
+    (∀ r, scanFrom bs j = .inr r → j ≤ r ∧ r + 4 < j + bs.length)
+  | [], j => by simp [scanFrom]
+  | [_], j => by simp [scanFrom]
+  | [_, _], j => by simp [scanFrom]
+  | [_, _, _], j => by simp [scanFrom]
+  | [_, _, _, _], j => by simp [scanFrom]
+  | a :: b :: c :: d :: x :: rest, j => by
+    have ih := scanFrom_spec (b :: c :: d :: x :: rest) (j + 1)
+    unfold scanFrom
+    split
+    · simp only [reduceCtorEq, false_implies, implies_true, Sum.inr.injEq, true_and, List.length_cons]
+      intro r hr; subst hr; omega
+    · simp only [List.length_cons] at ih ⊢
+      constructor
+      · intro r hr; have := ih.1 r hr; omega
+      · intro r hr; have := ih.2 r hr; omega
+
+theorem scanHdr_inl (buf : Bytes) (i j : Nat) (hi : i < buf.length) (h : scanHdr buf i = .inl j) : j + 4 ≥ buf.length := by
+  unfold scanHdr at h
+  have := (scanFrom_spec (buf.drop i) i).1 j h
+  simp only [List.length_drop] at this
+  omega
+
+theorem scanHdr_inr (buf : Bytes) (i j : Nat) (hi : i < buf.length) (h : scanHdr buf i = .inr j) :
+    i ≤ j ∧ j + 4 < buf.length := by
+  unfold scanHdr at h
+  have := (scanFrom_spec (buf.drop i) i).2 j h
+  simp only [List.length_drop] at this
+  omega
+
+/-- **the C string handed to `regexec` ends inside the buffer**: after `j[3] = 0` there is a NUL at or before `j + 3`,
+so the subject is at most `j + 3 - i` bytes long -/
+theorem cstr_in_bounds (buf : Bytes) (i j : Nat) (hij : i ≤ j) (hj : j + 4 < buf.length) :
+    (cstr ((buf.set (j + 3) 0).drop i)).length ≤ j + 3 - i := by
+  unfold cstr
+  have hsplit : (buf.set (j + 3) 0).drop i = ((buf.set (j + 3) 0).drop i).take (j + 3 - i) ++ 0 :: (buf.set (j + 3) 0).drop (j + 4) := by
+    have h1 : ((buf.set (j + 3) 0).drop i).drop (j + 3 - i) = 0 :: (buf.set (j + 3) 0).drop (j + 4) := by
+      rw [List.drop_drop]
+      have : i + (j + 3 - i) = j + 3 := by omega
+      rw [this]
+      rw [List.drop_eq_getElem_cons (by simp; omega)]
+      simp
+    rw [← h1, List.take_append_drop]
+  rw [hsplit]
+  have : ∀ (l1 l2 : Bytes), ((l1 ++ 0 :: l2).takeWhile (· ≠ 0)).length ≤ l1.length := by
+    intro l1 l2
+    induction l1 with
+    | nil => simp
+    | cons a l ih =>
+      simp only [List.cons_append, List.takeWhile_cons]
+      split
+      · simp only [List.length_cons]; omega
+      · simp
+  have h2 := this (((buf.set (j + 3) 0).drop i).take (j + 3 - i)) ((buf.set (j + 3) 0).drop (j + 4))
+  refine Nat.le_trans h2 ?_
+  simp only [List.length_take]
+  omega
+
+/-- both part patterns are compiled -/
+def RxReady (st : St) : Prop := (∃ p, st.dlRx = .ok p) ∧ (∃ q, st.endRx = .ok q)
+
+theorem RxReady.of_rxs {st st' : St} (h : RxReady st) (hr : rxs st' = rxs st) : RxReady st' := by
+  simp only [rxs, Prod.mk.injEq] at hr
+  unfold RxReady; rw [hr.2.2.1, hr.2.2.2]; exact h
+
+theorem rxs_mpPartHeader (e : Env) (hs : RxSane e.rx) (s : Bytes) (st : St) (hr : RxReady st) :
+    rxs (mpPartHeader e s st).2 = rxs st := by
+  obtain ⟨⟨p, hp⟩, ⟨q, hq⟩⟩ := hr
+  unfold mpPartHeader
+  rw [hp, hq]
+  simp only
+  cases hm : e.rx.part p s with
+  | none => simp only; split <;> simp [rxs, hp, hq]
+  | some m =>
+    obtain ⟨a, b, c, d⟩ := m
+    have := hs.part p s a b c d hm
+    simp only
+    rw [if_neg (by simp only [Classical.not_not]; exact this)]
+    simp [rxs, hp, hq]
+
+theorem rxs_mpPayload (e : Env) (f0 : Bytes) (v0 : List Int) (buf : Bytes) (i hs : Nat) (st : St)
+    (hg : Good e f0 v0 st) : rxs (mpPayload e buf i hs st).2.2.2 = rxs st := by
+  unfold mpPayload
+  by_cases hle : st.mp.length ≤ buf.length - i
+  · simp only [hle, ↓reduceIte]
+    refine Eq.trans (rxs_dlWriteRange e f0 v0 _ _ _ (hg.congr rfl rfl rfl rfl rfl) ?_) rfl
+    simp only [List.length_take, List.length_drop]
+    split <;> omega
+  · simp only [hle, ↓reduceIte]
+    refine Eq.trans (rxs_dlWriteRange e f0 v0 _ _ _ (hg.congr rfl rfl rfl rfl rfl) ?_) rfl
+    simp only [List.length_take, List.length_drop]
+    split <;> omega
+
+/-- `dl_write_range` and everything below it leave the multipart parser's state alone -/
+theorem mp_dlWrite (st : St) (at_ : Bytes) : (dlWrite st at_).2.mp = st.mp := by
+  unfold dlWrite
+  simp only
+  repeat' split
+  all_goals rfl
+
+theorem mp_setChunkValid (e : Env) (st : St) (k : Nat) : (setChunkValid e st k).2.mp = st.mp := by
+  unfold setChunkValid
+  cases e.hdr.chunks[k]? with
+  | none => rfl
+  | some tc =>
+    simp only
+    cases hh : st.hash with
+    | none => rfl
+    | some acc =>
+      simp only
+      generalize (if tc.compLen = 0 then (hsize e.hdr.chunkHashType).map zeros else e.H e.hdr.chunkHashType acc) = dg
+      by_cases hd : (dg == some tc.digest) = true
+      · simp only [hd, ↓reduceIte]
+      · simp only [hd, Bool.false_eq_true, ↓reduceIte]; rfl
+
+theorem mp_dlSelect (e : Env) (st : St) : (dlSelect e st).2.mp = st.mp := by
+  have hv : (dlVerify e st).2.mp = st.mp := by
+    unfold dlVerify; split
+    · exact mp_setChunkValid e st _
+    · rfl
+  have ho : ∀ s : St, (dlOpen e s).mp = s.mp := by
+    intro s; unfold dlOpen; simp only; split
+    · split <;> rfl
+    · rfl
+  unfold dlSelect
+  simp only
+  split
+  · exact hv
+  · rw [ho]; exact hv
+
+theorem mp_dlWriteRange (e : Env) : ∀ (fuel : Nat) (st : St) (at_ : Bytes), (dlWriteRange e fuel st at_).2.mp = st.mp
+  | 0, st, _ => by unfold dlWriteRange; rfl
+  | fuel + 1, st, at_ => by
+    unfold dlWriteRange
+    split
+    · rfl
+    · split
+      · rfl
+      · have hx := mp_dlWrite st at_
+        split
+        · rename_i st1 heq; rw [heq] at hx; exact hx
+        · rename_i wb st1 heq
+          rw [heq] at hx
+          simp only at hx
+          have hr : (if st1.writeInChunk = 0 then dlSelect e st1 else (true, st1)).2.mp = st1.mp := by
+            split
+            · exact mp_dlSelect e st1
+            · rfl
+          generalize (if st1.writeInChunk = 0 then dlSelect e st1 else (true, st1)) = r at hr ⊢
+          simp only
+          split
+          · rw [hr, hx]
+          · split
+            · have := mp_dlWriteRange e fuel r.2 (at_.drop wb)
+              split
+              · rw [this, hr, hx]
+              · rw [this, hr, hx]
+            · rw [hr, hx]
+
+/-- how far `mpPayload` advances: at most to the end of the buffer; and when it does not advance it has left payload mode -/
+theorem mpPayload_size (e : Env) (buf : Bytes) (i hs : Nat) (st : St) :
+    (mpPayload e buf i hs st).1 ≤ buf.length - i ∧
+    ((mpPayload e buf i hs st).1 = 0 → i < buf.length → (mpPayload e buf i hs st).2.2.1 = true →
+       (mpPayload e buf i hs st).2.2.2.mp.state = 0) := by
+  unfold mpPayload
+  by_cases hle : st.mp.length ≤ buf.length - i
+  · simp only [hle, ↓reduceIte]
+    refine ⟨trivial, fun h0 _ _ => ?_⟩
+    rw [mp_dlWriteRange]
+  · simp only [hle, ↓reduceIte]
+    refine ⟨Nat.le_refl _, fun h0 hi _ => by omega⟩
+
+/-- iterations the `while(i)` loop still needs from position `i` in parser state `state` (a bound) -/
+def need (l i state : Nat) : Nat := if i ≥ l then 1 else 2 * (l - i) + (if state ≠ 0 then 1 else 0) + 1
+
+/-- the loop of `multipart_extract`, given enough fuel for the buffer, compiled patterns and a sane `regexec`, terminates
+without touching the patterns and without undefined behaviour -/
+theorem rxs_mpLoop (e : Env) (hsane : RxSane e.rx) (f0 : Bytes) (v0 : List Int) :
+    ∀ (fuel : Nat) (buf : Bytes) (i hs : Nat) (st : St), Good e f0 v0 st → RxReady st →
+      need buf.length i st.mp.state ≤ fuel → rxs (mpLoop e fuel buf i hs st).2 = rxs st
+  | 0, buf, i, hs, st, _, _, hf => by unfold need at hf; split at hf <;> omega
+  | fuel + 1, buf, i, hs, st, hg, hr, hf => by
+    unfold mpLoop
+    simp only
+    split
+    · rename_i hst
+      split
+      · rfl
+      · rename_i hi
+        have hp := pres_mpPayload e (good_preserved e f0 v0) buf i hs st hg
+        have hx := rxs_mpPayload e f0 v0 buf i hs st hg
+        have hsz := mpPayload_size e buf i hs st
+        generalize mpPayload e buf i hs st = r at hp hx hsz ⊢
+        obtain ⟨size, hs', ok, st'⟩ := r
+        simp only at hp hx hsz ⊢
+        split
+        · exact hx
+        · rename_i hok
+          rw [rxs_mpLoop e hsane f0 v0 fuel buf _ _ st' hp (hr.of_rxs hx) ?_, hx]
+          have hok' : ok = true := by simpa using hok
+          unfold need at hf ⊢
+          simp only [hi, ↓reduceIte] at hf
+          rw [if_pos hst] at hf
+          by_cases h0 : size = 0
+          · have := hsz.2 h0 (by omega) hok'
+            simp only [h0, Nat.add_zero, hi, ↓reduceIte, this]
+            simp only [ne_eq, not_true_eq_false, ↓reduceIte]
+            omega
+          · split
+            · omega
+            · split <;> omega
+    · rename_i hst
+      split
+      · split <;> rfl
+      · rename_i hi
+        split
+        · rename_i j hj
+          have := scanHdr_inl buf i j (by omega) hj
+          rw [rxs_mpLoop e hsane f0 v0 fuel buf _ _ st hg hr ?_]
+          unfold need at hf ⊢
+          simp only [hi, ↓reduceIte] at hf
+          rw [if_pos (by omega)]
+          omega
+        · rename_i j hj
+          have hb := scanHdr_inr buf i j (by omega) hj
+          have hq := pres_mpPartHeader e (good_preserved e f0 v0) (cstr ((buf.set (j + 3) 0).drop i)) st hg
+          have hx := rxs_mpPartHeader e hsane (cstr ((buf.set (j + 3) 0).drop i)) st hr
+          split
+          · rename_i heq; rw [heq] at hx; exact hx
+          · rename_i st' heq
+            rw [heq] at hq hx
+            rw [rxs_mpLoop e hsane f0 v0 fuel _ _ _ st' hq (hr.of_rxs hx) ?_, hx]
+            unfold need at hf ⊢
+            simp only [hi, ↓reduceIte] at hf
+            simp only [List.length_set]
+            split
+            · omega
+            · split <;> omega
+
+/-- the invariant of a session as far as safety is concerned -/
+def Safe (e : Env) (f0 : Bytes) (v0 : List Int) (st : St) : Prop := Good e f0 v0 st ∧ RxOk st
+
+theorem rxOk_genRegex (e : Env) (st : St) (h : RxOk st) :
+    RxOk (genRegex e st).2 ∧ ((genRegex e st).1 = true → RxReady (genRegex e st).2) := by
+  unfold genRegex
+  simp only
+  split
+  · exact ⟨⟨h.noUb, h.hdr, Or.inl rfl⟩, fun hh => by simp at hh⟩
+  · split
+    · exact ⟨⟨h.noUb, h.hdr, Or.inl rfl⟩, fun hh => by simp at hh⟩
+    · exact ⟨⟨h.noUb, h.hdr, Or.inr ⟨⟨_, rfl⟩, ⟨_, rfl⟩⟩⟩, fun _ => ⟨⟨_, rfl⟩, ⟨_, rfl⟩⟩⟩
+
+theorem rxOk_mpEnsureRx (e : Env) (st : St) (h : RxOk st) :
+    RxOk (mpEnsureRx e st).2 ∧ ((mpEnsureRx e st).1 = true → RxReady (mpEnsureRx e st).2) := by
+  unfold mpEnsureRx
+  split
+  · exact rxOk_genRegex e st h
+  · rename_i hn
+    refine ⟨h, fun _ => ?_⟩
+    rcases h.pair with h0 | h1
+    · exact absurd h0 (by intro hh; exact hn hh)
+    · exact h1
+
+theorem safe_mpExtract (e : Env) (hsane : RxSane e.rx) (f0 : Bytes) (v0 : List Int) (st : St) (b : Bytes)
+    (h : Safe e f0 v0 st) : Safe e f0 v0 (mpExtract e st b).2 := by
+  refine ⟨pres_mpExtract e (good_preserved e f0 v0) st b h.1, ?_⟩
+  obtain ⟨hg, hr⟩ := h
+  unfold mpExtract
+  split
+  · exact hr
+  · simp only
+    have hj : Good e f0 v0 (mpJoin st b).2 ∧ rxs (mpJoin st b).2 = rxs st ∧ (mpJoin st b).2.mp.state = st.mp.state := by
+      unfold mpJoin
+      split
+      · exact ⟨hg.congr rfl rfl rfl rfl rfl, rfl, rfl⟩
+      · exact ⟨hg, rfl, rfl⟩
+    have he := rxOk_mpEnsureRx e (mpJoin st b).2 (hr.of_rxs hj.2.1)
+    have hge : Good e f0 v0 (mpEnsureRx e (mpJoin st b).2).2 := by
+      unfold mpEnsureRx
+      split
+      · exact pres_genRegex e (good_preserved e f0 v0) _ hj.1
+      · exact hj.1
+    split
+    · exact he.1
+    · rename_i hok
+      have hready := he.2 (by simpa using hok)
+      have := rxs_mpLoop e hsane f0 v0 (2 * (mpJoin st b).1.length + 4) (mpJoin st b).1 0 0 _ hge hready (by
+        unfold need
+        split
+        · omega
+        · split <;> omega)
+      exact he.1.of_rxs this
+
+theorem safe_getBoundary (e : Env) (hsane : RxSane e.rx) (hc : e.rx.comp hdrPattern = true) (f0 : Bytes) (v0 : List Int)
+    (st : St) (b : Bytes) (h : Safe e f0 v0 st) : Safe e f0 v0 (getBoundary e st b) := by
+  refine ⟨pres_getBoundary e (good_preserved e f0 v0) st b h.1, ?_⟩
+  obtain ⟨hg, hr⟩ := h
+  unfold getBoundary
+  split
+  · exact hr
+  · have hens : ∃ st1, hdrEnsureRx e st = some st1 ∧ RxOk st1 := by
+      unfold hdrEnsureRx
+      split
+      · rw [if_pos hc]
+        exact ⟨_, rfl, ⟨hr.noUb, by simp, hr.pair⟩⟩
+      · exact ⟨st, rfl, hr⟩
+    obtain ⟨st1, h1, hr1⟩ := hens
+    rw [h1]
+    simp only
+    rw [if_neg hr1.hdr]
+    cases hm : e.rx.hdr (cstr b) with
+    | none => exact hr1
+    | some p =>
+      obtain ⟨so, eo⟩ := p
+      have := hsane.hdr (cstr b) so eo hm
+      simp only
+      rw [if_neg (by simp only [Classical.not_not]; exact this)]
+      exact hr1.congr rfl rfl rfl rfl
+
+theorem safe_writeChunkCb (e : Env) (hsane : RxSane e.rx) (f0 : Bytes) (v0 : List Int) (st : St) (b : Bytes)
+    (h : Safe e f0 v0 st) : Safe e f0 v0 (writeChunkCb e st b).2 := by
+  refine ⟨pres_writeChunkCb e (good_preserved e f0 v0) st b h.1, ?_⟩
+  unfold writeChunkCb
+  simp only
+  have h0 : Safe e f0 v0 { st with dlBytes := st.dlBytes + b.length } :=
+    ⟨h.1.congr rfl rfl rfl rfl rfl, h.2.congr rfl rfl rfl rfl⟩
+  split
+  · exact (safe_mpExtract e hsane f0 v0 _ b h0).2
+  · exact h0.2.of_rxs (rxs_dlWriteRange e f0 v0 _ _ b h0.1 (by split <;> omega))
+
+theorem safe_feed (e : Env) (hsane : RxSane e.rx) (f0 : Bytes) (v0 : List Int) (stop clear : Bool) :
+    ∀ (frags : List Bytes) (st : St) (acc : List Nat), Safe e f0 v0 st → Safe e f0 v0 (feed e stop clear st frags acc).2
+  | [], st, acc, h => by unfold feed; exact h
+  | b :: rest, st, acc, h => by
+    unfold feed
+    have h1 := safe_writeChunkCb e hsane f0 v0 st b h
+    generalize writeChunkCb e st b = r at h1 ⊢
+    obtain ⟨r1, st1⟩ := r
+    simp only at h1 ⊢
+    split
+    · exact h1
+    · apply safe_feed e hsane f0 v0 stop clear rest
+      split
+      · exact ⟨h1.1.congr rfl rfl rfl rfl rfl, h1.2.congr rfl rfl rfl rfl⟩
+      · exact h1
+
+theorem safe_feedHdrs (e : Env) (hsane : RxSane e.rx) (hc : e.rx.comp hdrPattern = true) (f0 : Bytes) (v0 : List Int) :
+    ∀ (lines : List Bytes) (st : St) (acc : List Nat), Safe e f0 v0 st → Safe e f0 v0 (feedHdrs e st lines acc).2
+  | [], st, acc, h => by unfold feedHdrs; exact h
+  | b :: rest, st, acc, h => by
+    unfold feedHdrs
+    simp only [headerCb]
+    exact safe_feedHdrs e hsane hc f0 v0 rest _ _ (safe_getBoundary e hsane hc f0 v0 st b h)
+
+/-- **C17 (safety)**: for ANY header lines, ANY body bytes, ANY fragmentation (also empty fragments), whether the transport
+stops at a refusal or goes on and whether the application clears errors in between, and whatever a `regexec` that keeps
+its contract (offsets inside the subject) answers — including failures of `regcomp` on the patterns built from the
+server's boundary — no callback uses an uncompiled pattern, reads a match outside its string, follows a chunk pointer out
+of the index, or fails to terminate (every loop ends within the fuel computed from the size of its input).
+Hypothesis: the constant header pattern compiles (otherwise glibc is out of memory). -/
+theorem safe (e : Env) (hsane : RxSane e.rx) (hc : e.rx.comp hdrPattern = true) (st : St) (lines frags : List Bytes)
+    (stop clear : Bool) (h1 : st.tgtCheck = none) (h2 : st.writeInChunk = 0) (h3 : RxOk st) :
+    (feed e stop clear (feedHdrs e st lines []).2 frags []).2.ub = false :=
+  (safe_feed e hsane st.file st.valid stop clear frags _ []
+    (safe_feedHdrs e hsane hc st.file st.valid lines st [] ⟨good_init e st h1 h2, h3⟩)).2.noUb
+
+/-- **C17 (confinement)** = `C05.confined`: stated there for arbitrary bytes, fragmentations and regex answers -/
+theorem confined_any (e : Env) (st : St) (lines frags : List Bytes) (stop clear : Bool)
+    (h1 : st.tgtCheck = none) (h2 : st.writeInChunk = 0) :
+    let fin := (feed e stop clear (feedHdrs e st lines []).2 frags []).2
+    (∀ i, Outside e st.valid i → fin.file.getD i 0 = st.file.getD i 0) ∧
+    (∀ k, st.valid.getD k 0 = 1 → fin.valid.getD k 0 = 1) :=
+  C05.confined e st lines frags stop clear h1 h2
+
+/-- **C17 (verification)** = `C05.verified` -/
+theorem verified_any (e : Env) (hd : Disj e) (st : St) (lines frags : List Bytes) (stop clear : Bool)
+    (h1 : st.tgtCheck = none) (h2 : st.writeInChunk = 0) :
+    let fin := (feed e stop clear (feedHdrs e st lines []).2 frags []).2
+    ∀ k tc, e.hdr.chunks[k]? = some tc → st.valid.getD k 0 ≠ 1 → fin.valid.getD k 0 = 1 → ChunkOk e fin.file tc :=
+  C05.verified e hd st lines frags stop clear h1 h2
+
+/-! ### non-vacuity (tests on a concrete instance, labelled as tests) -/
+
+/-- toy checksum: the byte sum -/
+def toyH : HashFn := fun _ bs => some [bs.foldl (· + ·) 0]
+def toyRx : Rx := { comp := fun _ => true, hdr := fun _ => none, part := fun _ _ => none, endm := fun _ _ => false }
+def toyHdr : Hdr :=
+  { detached := false, hashType := 1, chunkHashType := 3, flags := 0, compType := 0, lead := 4, headerLen := 2,
+    headerDigest := [], dataDigest := [], count := 3,
+    chunks := [⟨0, [0], none, 0, 0, 0⟩, ⟨1, [6], none, 3, 3, 0⟩, ⟨2, [9], none, 2, 2, 3⟩], dataLen := 5 }
+def toyEnv : Env := { H := toyH, rx := toyRx, hdr := toyHdr, ridx := mkRidx [(1, 3), (2, 2)] 0 }
+def toySt : St := { file := [9, 9, 9, 9, 9, 9, 7, 7, 7, 7, 7], pos := 6, valid := [1, 0, 0] }
+
+/-- the hypotheses of `confined`, `verified` and `C17.safe` hold of a concrete session -/
+example : toySt.tgtCheck = none ∧ toySt.writeInChunk = 0 ∧ Disj toyEnv ∧ RxOk toySt ∧ RxSane toyEnv.rx ∧
+    toyEnv.rx.comp hdrPattern = true := by
+  refine ⟨rfl, rfl, disj_of_runFrom toyEnv (by simp [toyEnv, toyHdr, C13.RunFrom]), ⟨rfl, by simp [toySt], Or.inl rfl⟩,
+    ⟨fun _ _ _ h => by simp [toyEnv, toyRx] at h, fun _ _ _ _ _ _ h => by simp [toyEnv, toyRx] at h⟩, rfl⟩
+
+/-- TEST: a single-range response cut in two, the cut inside the first chunk: both chunks land at their offsets and are valid -/
+example : (feed toyEnv true false toySt [[1, 2], [3, 4, 5]] []).2.file = [9, 9, 9, 9, 9, 9, 1, 2, 3, 4, 5] ∧
+    (feed toyEnv true false toySt [[1, 2], [3, 4, 5]] []).2.valid = [1, 1, 1] ∧
+    (feed toyEnv true false toySt [[1, 2], [3, 4, 5]] []).1 = [2, 3] := by decide
+
+/-- TEST: a damaged byte in the first chunk: zero-filled, marked failed, the callback returns 0, the second chunk untouched -/
+example : (feed toyEnv true false toySt [[1, 2], [4, 4, 5]] []).2.file = [9, 9, 9, 9, 9, 9, 0, 0, 0, 7, 7] ∧
+    (feed toyEnv true false toySt [[1, 2], [4, 4, 5]] []).2.valid = [1, -1, 0] ∧
+    (feed toyEnv true false toySt [[1, 2], [4, 4, 5]] []).1 = [2, 0] := by decide
 
 end Zck.C17
